@@ -145,19 +145,32 @@ Theorem C15_bucket_first : forall c k0 rest kn s e, rest <> [] -> decode_range c
 Proof. exact bucket_first. Qed.
 Print Assumptions C15_bucket_first.
 
-Theorem C15_bucket_last_partial : forall c rest f out k0 s e, rest <> [] ->
-  decode_range c k0 (last rest []) = ROk s e -> ~ short_start c (last rest []) ->
+Theorem C15_bucket_last : forall c rest f out k0 s e, rest <> [] ->
+  decode_range c k0 (last rest []) = ROk s e ->
   last (dbk c f out rest) [0] = e.
 Proof. exact bucket_last. Qed.
-Print Assumptions C15_bucket_last_partial.
+Print Assumptions C15_bucket_last.
 
-(* full strength is refuted by the code as it is: keyspace 255 raw, buckets [..a, ..m, 72 00 01]: the region
-   end 72 00 01 decodes to the unbounded end, but the bucket list ends at "m" *)
-Theorem C15_bucket_last_refuted :
-  ~ (forall c rest k0 s e, rest <> [] -> decode_range c k0 (last rest []) = ROk s e ->
-       last (dbk c true [] (k0 :: rest)) [0] = e).
-Proof. exact bucket_last_refuted. Qed.
-Print Assumptions C15_bucket_last_refuted.
+(* ScanRegions / BatchScanRegions (decodeScannedRegions): the decoded answer is, in order, the clipped form of exactly
+   the regions of PD's answer that decode; for a proper region "decodes" = "holds a key of the keyspace"; a region
+   lying between two keys of the keyspace holds one (so in a chain the kept regions are consecutive and the decoded
+   answer is contiguous by C15_pd_contiguous) *)
+Theorem C15_pd_scan : forall c phys,
+  decode_scan c (map menc_region phys) = Some (flat_map (clip_region c) phys) /\
+  flat_map (clip_region c) phys = flat_map (clip_region c) (filter (holds_key c) phys).
+Proof. exact scan_exact. Qed.
+Print Assumptions C15_pd_scan.
+
+Theorem C15_pd_scan_kept : forall c s e, (e = [] \/ lex_lt s e) ->
+  (holds_key c (s, e) = true <-> exists k, in_range s e (encode_key c k)).
+Proof. exact holds_key_spec. Qed.
+Print Assumptions C15_pd_scan_kept.
+
+Theorem C15_pd_scan_convex : forall c s e k1 k2,
+  lex_le (encode_key c k1) s -> lex_lt s e -> lex_le e (encode_key c k2) ->
+  exists x, s = encode_key c x /\ in_range s e (encode_key c x).
+Proof. exact between_holds. Qed.
+Print Assumptions C15_pd_scan_convex.
 
 (* ParseKeyspaceID *)
 Theorem C15_parse_keyspace_id : forall c k, ks_ok c -> parse_keyspace_id (encode_key c k) = Some (ks_id c).
@@ -227,6 +240,16 @@ Example ex_last_id : prefix (mkks Raw 16777215) = [114; 255; 255; 255] /\ end_ke
 Proof. repeat split; try (vm_compute; reflexivity); try (vm_compute; congruence). Qed.
 Example ex_isolation_modes : forall id k1 k2, id < two24 -> encode_key (mkks Raw id) k1 <> encode_key (mkks Txn id) k2.
 Proof. intros id k1 k2 H. apply C15_isolation; try exact H. congruence. Qed.
+(* regression examples for the repairs bbcfa45 (bucket end) and 163e34b (scan skips foreign regions) *)
+Example ex_bucket_last_before_repair :
+  decode_range (mkks Raw 255) [114;0;0;255;97] [114;0;1] = ROk [97] [] /\
+  dbk_gen false (mkks Raw 255) true [] [[114;0;0;255;97]; [114;0;0;255;109]; [114;0;1]] = [[97]; [109]] /\
+  dbk (mkks Raw 255) true [] [[114;0;0;255;97]; [114;0;0;255;109]; [114;0;1]] = [[97]; [109]; []].
+Proof. exact bucket_last_before_repair. Qed.
+Example ex_scan_short_region :
+  decode_scan (mkks Raw 255) (map menc_region [([], [114;0;0;255;109]); ([114;0;0;255;109], [114;0;1]); ([114;0;1], [114;0;1;0]); ([114;0;1;0], [])])
+  = Some [([], [109]); ([109], [])].
+Proof. vm_compute. reflexivity. Qed.
 Example ex_buckets :
   decode_bucket_keys (mkks Raw 1) [[]; encode_bytes [114;0;0;1]; encode_bytes [114;0;0;1;5]; encode_bytes [114;0;0;2;1]]
     = Some [[]; [5]; []]
